@@ -55,6 +55,9 @@ def _cache_put(key, obj):
         with open(tmp, "wb") as f:
             pickle.dump(obj, f, protocol=pickle.HIGHEST_PROTOCOL)
         os.replace(tmp, os.path.join(CACHE, key + ".pkl"))
+        old = sorted((os.path.join(CACHE, f) for f in os.listdir(CACHE) if f.endswith(".pkl")), key=os.path.getmtime)
+        for p in old[:-40]:          # scratch-copy variants leave one entry each: keep the cache bounded
+            os.remove(p)
     except Exception:
         pass
 
